@@ -198,6 +198,21 @@ def run_case(scheme, cert_reqs, check_hostname, trust, server_hostname, server_c
         if not shared_sslopt:
             shared_sslopt.update(sslopt)
         sslopt = shared_sslopt
+    none_keys = ()
+    if extras and extras.startswith("none:"):
+        # sslopt built from a configuration object in which nothing is set: the key is present, its value is None. That is not one of the
+        # documented relaxing options: the connection is verified as if the key were absent - or refused outright.
+        none_keys = tuple(extras[5:].split("+"))
+        for k_ in none_keys:
+            sslopt[k_] = None
+        if "cert_reqs" in none_keys:
+            cert_reqs = "absent"
+        if "check_hostname" in none_keys:
+            check_hostname = "absent"
+        if "server_hostname" in none_keys:
+            server_hostname = "absent"
+        if trust in none_keys:
+            trust = "none"
     if extras == "ciphers":
         sslopt["ciphers"] = "DEFAULT"
     elif extras == "certfile":
@@ -311,13 +326,20 @@ def run_case(scheme, cert_reqs, check_hostname, trust, server_hostname, server_c
     chain_ok = ca_signed and trusts_ca
     name_ok = cert_name == expected_name
     accept = (not config_error) and (chain_ok or not verify_chain) and (name_ok or not verify_name)
+    if "check_hostname" in none_keys and verify_name and not name_ok and (not config_error) and (chain_ok or not verify_chain):
+        # check_hostname=None is a falsy value given to the documented relaxing option: whether it counts as False (name check off) or as
+        # "not given" is not specified; only its own check may be affected
+        if exc is None and out.get("http_request_seen"):
+            return None
     fb = out.get("first_bytes", b"")
-    if not config_error and fb[:2] != b"\x16\x03":
+    if not config_error and fb[:2] != b"\x16\x03" and not (none_keys and exc is not None and not fb):
         return (dict(sig, kind="not-tls-from-first-byte"), "%s: first bytes on the stream are %r, expected a TLS ClientHello" % (label, fb))
     if route == "proxy" and not (out.get("connect_request", b"").startswith(("CONNECT %s:443 " % (target if ":" not in thost else thost)).encode())) and not (
             ":" in thost and out.get("connect_request", b"").startswith(("CONNECT %s:443 " % target).encode())):
         return (dict(sig, kind="proxy-connect"), "%s: CONNECT request %r" % (label, out.get("connect_request")))
     if accept:
+        if exc is not None and none_keys and not out.get("http_request_seen"):
+            return None  # a None-valued option refused outright: allowed
         if exc is not None:
             return (dict(sig, kind="valid-peer-rejected", chain=verify_chain, name=verify_name), "%s: expected to be accepted, connect() raised %s: %s" % (label, type(exc).__name__, str(exc)[:120]))
         if not out.get("http_request_seen"):
@@ -428,7 +450,9 @@ def run_task(desc):
                     run("wss", cr, chk, trust, sh, sc, "direct", sv)
         # documented options that have nothing to do with authentication must not change what is verified
         if not trust.startswith("context"):
-            for ex in ("ciphers", "certfile", "cert_chain", "ecdh", "handshake-flags", "opt:host", "opt:host-port", "opt:origin", "opt:header", "opt:misc"):
+            for ex in ("ciphers", "certfile", "cert_chain", "ecdh", "handshake-flags", "opt:host", "opt:host-port", "opt:origin", "opt:header", "opt:misc",
+                       "none:cert_reqs", "none:check_hostname", "none:server_hostname", "none:ca_certs+ca_cert_path", "none:cert_reqs+check_hostname+ca_certs+ca_cert_path+server_hostname",
+                       "none:ciphers+certfile+keyfile+password+ecdh_curve"):
                 for chk, sc in itertools.product(CHECK_HOST, SERVER_CERT):
                     run("wss", cr, chk, trust, "absent", sc, "direct", "absent", ex)
                     if ex == "opt:host" and desc["cert_reqs"] == 0:
